@@ -355,6 +355,57 @@ func RunDetPure(c *core.Ctx) {
 				}
 				return true
 			})
+			// --- package variables whose address escapes (explicit & or a pointer-receiver method call): potential writes
+			ast.Inspect(fd.Body, func(x ast.Node) bool {
+				var target ast.Expr
+				how := ""
+				switch t := x.(type) {
+				case *ast.UnaryExpr:
+					if t.Op == token.AND {
+						target, how = t.X, "address taken"
+					}
+				case *ast.CallExpr:
+					if sel, ok := t.Fun.(*ast.SelectorExpr); ok {
+						if si, ok := info.Selections[sel]; ok && si.Kind() == types.MethodVal {
+							if f, ok := si.Obj().(*types.Func); ok {
+								if sig := f.Type().(*types.Signature); sig.Recv() != nil {
+									if _, isPtr := sig.Recv().Type().(*types.Pointer); isPtr {
+										if _, recvIsPtr := info.TypeOf(sel.X).(*types.Pointer); !recvIsPtr {
+											target, how = sel.X, "pointer-receiver method "+f.Name()+" called on it"
+										}
+									}
+								}
+							}
+						}
+					}
+				}
+				if target == nil {
+					return true
+				}
+				root := target
+				for {
+					switch r := root.(type) {
+					case *ast.SelectorExpr:
+						if _, isPkg := info.Uses[identOf(r.X)].(*types.PkgName); isPkg {
+							root = r.Sel
+						} else {
+							root = r.X
+						}
+						continue
+					case *ast.IndexExpr:
+						root = r.X
+						continue
+					case *ast.ParenExpr:
+						root = r.X
+						continue
+					}
+					break
+				}
+				if id, ok := root.(*ast.Ident); ok && pkgVars[info.ObjectOf(id)] && !allowed {
+					c.Fail("T.pure", fmt.Sprintf("%s.%s mutates package variable %s", rel, name, id.Name), "package-level state can be modified while generating ("+how+"): the output for one file can depend on the files generated before it in the same invocation", c.PosStr(p.Fset, x.Pos()), src)
+				}
+				return true
+			})
 			// --- map ranges
 			ast.Inspect(fd.Body, func(x ast.Node) bool {
 				rs, ok := x.(*ast.RangeStmt)
